@@ -146,7 +146,7 @@ impl ReducedLarge {
     #[inline]
     pub(crate) fn is_valid(&self, ring: &ConstLargeDivisor) -> bool {
         self.0.len() == ring.normalized_divisor.len()
-            && cmp::cmp_same_len(&self.0, &ring.normalized_divisor).is_le()
+            && cmp::cmp_same_len(&self.0, &ring.normalized_divisor).is_lt()
             && self.0[0] & math::ones_word(ring.shift) == 0
     }
 }
